@@ -41,10 +41,12 @@ func runProxy(commandPrefix string, cmdBuilder func(temp string, needBash bool) 
 	defer os.Remove(output)
 
 	// Take the output
+	outputOpened := make(chan struct{})
 	outputDone := make(chan struct{})
 	go func() {
 		defer close(outputDone)
 		withOutputPipe(output, func(outputFile io.ReadCloser) {
+			close(outputOpened)
 			if opts.Output == nil {
 				io.Copy(os.Stdout, outputFile)
 			} else {
@@ -159,6 +161,14 @@ func runProxy(commandPrefix string, cmdBuilder func(temp string, needBash bool) 
 				os.Remove(input)
 				os.Remove(output)
 				executor.Become(ttyin, env, command)
+			}
+			// A session that ends with a non-zero status can have printed something
+			// (--print-query, --expect). If the other end of the pipe was opened, it
+			// is closed by now, and the relay finishes once it has passed that on.
+			select {
+			case <-outputOpened:
+				<-outputDone
+			default:
 			}
 			return code, err
 		}
